@@ -29,7 +29,7 @@ RULE = ('cases = (pass-through function, table, arguments, target kind); seeded 
 ASSUMPTIONS = ['tee targets: MemorySource and plain file paths', 'a tee is compared with to* only after it was iterated to the end']
 FNS = ['teecsv', 'teetsv', 'teepickle', 'teetext', 'teehtml', 'progress', 'log_progress', 'clock', 'cache', 'wrap']
 REQUIRED = ['fn:' + f for f in FNS] + ['tee-bytes-compared', 'ragged-table', 'header-only-table', 'write_header=False', 'file-target', 'memory-target',
-                                         'cache-limited', 'non-utf8-encoding']
+                                         'cache-limited', 'non-utf8-encoding', 'cache-interleaved-iterators']
 TEXT = ['', 'a', 'b c', 'x,y', 'q"q', "it's", 'é', '€', 'l1\nl2', 'cr\rlf', 'tab\there', '<b>&amp;</b>', ' pad ', '1', '2.5', 'None']
 MIXED = TEXT + [None, 0, 1, -3, 2.5, True, gen.D(2020, 1, 1), (1, 2), b'by']
 
@@ -145,6 +145,33 @@ def judge(case, ctx):
         for p in (1, 2, 3):
             if not same_rows(util.attempt_rows(lambda: v), 'pass%d (n=%r)' % (p, lim)):
                 break
+        # two iterators advanced in turns (lagging and round-robin): each must deliver the wrapped rows
+        for lead in (1, 2, 3):
+            v2 = _cache(copy.deepcopy(case['table']), n=lim)
+            a, b = iter(v2), iter(v2)
+            ga, gb = [], []
+            try:
+                for _ in range(lead):
+                    ga.append(tuple(next(a)))
+                gb.append(tuple(next(b)))
+                while True:
+                    moved = False
+                    for it_, g_ in ((a, ga), (b, gb)):
+                        try:
+                            g_.append(tuple(next(it_)))
+                            moved = True
+                        except StopIteration:
+                            pass
+                    if not moved:
+                        break
+            except StopIteration:
+                pass
+            for who, g_ in (('leader', ga), ('follower', gb)):
+                if util.crows(g_) != util.crows(rows[:len(g_)]) or (len(rows) >= lead and len(g_) != len(rows)):
+                    out.append({'kind': 'rows-not-transparent', 'fn': 'cache', 'at': '%s of two interleaved iterators (lead %d, n=%r)' % (who, lead, lim),
+                                'expected': rows, 'observed': g_})
+                    return out
+            ctx.seen('cache-interleaved-iterators')
         # partial pass, then full passes
         v = _cache(copy.deepcopy(case['table']), n=lim)
         it = iter(v)
